@@ -883,12 +883,18 @@ def mdcpdp_mask_classes(ctx: Ctx, env: EnvA, direction: str = "looser"):
         lv = nf.boolwalk(n, T.BOOL_CELLS)
         if len(lv) != 2 or not all(l.cmp() is not None and l.conj and l.sign > 0 for l in lv):
             continue
+        # `action < D`, i.e. D - action > 0: the action sits on the negative side (`action > D` has the same operator after normalisation)
         isdep = [l for l in lv if l.cmp()[1] == ">0" and vg.cells_of(l.node) >= {"action"} and "available" not in vg.cells_of(l.node)]
         seen_ = [l for l in lv if l.cmp()[1] == "==0" and {"available", "action"} <= vg.cells_of(l.node)]
         if len(isdep) == 1 and len(seen_) == 1:
             back = nf.strip(n, True)
+            back_dep = isdep[0]
     if back is None:
         raise AnalysisError("MDCPDPEnv._step: back flag (action < D) & (available[action] == 0) not found in the mask")
+    side_ok = any("action" in vg.cells_of(x) for x in back_dep.cmp()[0].side_atoms(False)) and not any("action" in vg.cells_of(x) for x in back_dep.cmp()[0].side_atoms(True))
+    ctx.ob("C01.n", "MDCPDPEnv._step:back-flag:action-below-the-depot-count", side_ok, sl.where,
+           f"back flag tests {back_dep.cmp()[0].show(2)} > 0" + ("" if side_ok else " -- the action must be BELOW the number of depots (`action > D` marks customers as depot returns: loads and lengths are settled at the wrong nodes)"),
+           construct="MDCPDPEnv._step:back-flag:side")
     b1 = None
     for n in vg.walk(root):
         d_ = nf.dim_of(n)
